@@ -290,34 +290,67 @@ def tree_from_calls(calls, root):
     return d
 
 
+def equal_section_docs():
+    """Call lists in which whole sections repeat (same title on two
+    commits, the same file content in two changes, cherry-picks): equal is
+    not identical."""
+    F = lambda name: [['file', None], ['meta', {'path': name}, None],
+                      ['diff', b'-a\n+b\n', None, None, None]]
+    C = lambda files, pre='Fix typo\n', mid='same': (
+        [['change', None], ['preamble', pre, None, 4, None, None],
+         ['meta', {'id': mid}, None]] + [c for f in files for c in f])
+    docs = []
+    for layout in ([['f'], ['f', 'g']], [['f', 'g'], ['f', 'g']],
+                   [['f'], ['g', 'f']], [['f', 'f'], ['f', 'f', 'f']],
+                   [['f'], ['f'], ['f', 'g']], [['f', 'g', 'f']],
+                   [['f', 'g'], ['g', 'f'], ['f']]):
+        calls = [['preamble', 'Fix typo\n', None, 4, None, None],
+                 ['meta', {'id': 'same'}, None]]
+        for files in layout:
+            calls += C([F(n) for n in files])
+        docs.append(calls)
+    return docs
+
+
+def check_equal_doc(i):
+    out = []
+    for key, msg in check_calls(equal_section_docs()[i], 'utf-8', 'equal'):
+        out.append((key, msg))
+    return out
+
+
 def check_scale(cfg, variant):
     from mc import wrgraph
     root, enc, le = variant
     calls = wrgraph.scale_calls(cfg, enc, le)
+    return check_calls(calls, root, 'scale', 'scale %r' % (cfg,))
+
+
+def check_calls(calls, root, tag, what=''):
     tree = tree_from_calls(calls, root)
     v = []
     try:
         data = tree.to_bytes()
     except Exception as e:
-        return [('to-bytes-raised:%s:%s:scale' % (type(e).__name__,
-                                                  site_of(e)), repr(e))]
+        return [('to-bytes-raised:%s:%s:%s' % (type(e).__name__,
+                                               site_of(e), tag), repr(e))]
     want, recs = spec.serialize(calls, root)
     if data != want:
         i = next((k for k in range(min(len(data), len(want)))
                   if data[k] != want[k]), min(len(data), len(want)))
-        v.append(('bytes-not-canonical:scale', 'first difference at byte %d '
-                  'of %d/%d: wrote %r canonical %r'
+        v.append(('bytes-not-canonical:%s' % tag, 'first difference at byte '
+                  '%d of %d/%d: wrote %r canonical %r'
                   % (i, len(data), len(want), data[max(0, i - 30):i + 40],
                      want[max(0, i - 30):i + 40])))
     try:
         back = DiffX.from_bytes(want)
     except Exception as e:
-        v.append(('from-bytes-raised:%s:%s:scale' % (type(e).__name__,
-                                                     site_of(e)), repr(e)))
+        v.append(('from-bytes-raised:%s:%s:%s' % (type(e).__name__,
+                                                  site_of(e), tag), repr(e)))
         return v
     if freeze(snap(back)) != freeze(snap_from_records(recs)):
-        v.append(('reloaded-tree-differs:%s:scale' % first_diff(
-            snap(back), snap_from_records(recs)), 'scale %r' % (cfg,)))
+        v.append(('reloaded-tree-differs:%s:%s' % (first_diff(
+            snap(back), snap_from_records(recs)), tag), what or tag))
     return v
 
 
@@ -345,6 +378,7 @@ def plan(tier):
     from mc import wrgraph
     units += [('scale',) + (u[1],) for u in wrgraph.scale_units(tier, 6)[0]]
     units.append(('rewrite',))
+    units.append(('equal-sections',))
     return {
         'units': units,
         'rule': 'trees of shapes %r (files per change) built only through '
@@ -451,6 +485,20 @@ def check_rewrite(ti, ei):
 
 def run_unit(unit, tier):
     acc = Acc()
+    if unit[0] == 'equal-sections':
+        for i in range(len(equal_section_docs())):
+            viols = check_equal_doc(i)
+            acc.evals += 1
+            acc.states += 1
+            acc.transitions += 2
+            acc.validated += 1
+            acc.nontrivial += 1
+            for key, msg in viols:
+                acc.violation(key, msg, {'kind': 'equal', 'i': i})
+            acc.outcome('ok' if not viols else 'violation')
+        acc.sample({'equal_sections': 'repeated equal files / preambles / '
+                                      'metadata across changes'}, 1)
+        return acc
     if unit[0] == 'rewrite':
         for ti in range(len(rewrite_trees())):
             for ei in range(len(nested_edits(rewrite_trees()[ti]))):
@@ -519,6 +567,8 @@ def run_unit(unit, tier):
 
 
 def replay(payload):
+    if payload.get('kind') == 'equal':
+        return [{'key': k, 'msg': m} for k, m in check_equal_doc(payload['i'])]
     if payload.get('kind') == 'rewrite':
         return [{'key': k, 'msg': m}
                 for k, m in check_rewrite(payload['ti'], payload['ei'])]
